@@ -244,7 +244,9 @@ Qed.
 Lemma alnum_notab : forall c, in_str alnum_ c = true -> notab c.
 Proof.
   intros c H. unfold in_str, cmem in H. apply existsb_exists in H. destruct H as [z [Hz E]].
-  apply ceq_eq in E. subst z. revert Hz. vm_compute. intuition (subst; discriminate).
+  apply ceq_eq in E. subst z.
+  assert (A : forallb (fun c => negb (Nat.eqb (code c) 9)) (chars_of alnum_) = true) by (vm_compute; reflexivity).
+  rewrite forallb_forall in A. specialize (A c Hz). unfold notab. intros X. rewrite X in A. discriminate.
 Qed.
 Lemma word_tok : forall n, forallb (in_str alnum_) n = true -> tok_ok n.
 Proof. intros n H. apply Forall_forall. intros c Hc. rewrite forallb_forall in H. apply alnum_notab, H, Hc. Qed.
